@@ -12,6 +12,8 @@ MODS = ["base", "Angle", "Epoch", "Interpolation", "CurveFitting", "Coordinates"
 SKIP = {"main", "print_me"}
 # host-clock dependent or interactive: excluded from determinism (DESIGN 6.4)
 CLOCK = {"Epoch.utc2local"}
+# documented non-value results: "a tuple with None's is returned" for a circumpolar body
+NONE_OK = {"Coordinates.times_rise_transit_set": "tuple(NoneType,NoneType,NoneType)"}
 # documented mutators (change self only)
 MUTATORS = {"Angle.set", "Angle.set_radians", "Angle.set_ra", "Angle.to_positive", "Angle.set_tolerance", "Epoch.set",
             "Interpolation.set", "Interpolation.set_tolerance", "CurveFitting.set", "Minor.set", "Earth.set",
@@ -122,13 +124,48 @@ OVR = {
 }
 
 
+# documented-domain edges and internal seams (table boundaries, calendar reform, branch limits): one extra well-typed call per
+# (parameter, edge value); the other arguments stay seeded-random
+EDGES = {
+    ("Sun.get_equinox_solstice", "year"): [-1000, -1, 0, 999, 1000, 1001, 3000],
+    ("Epoch.tt2ut", "year"): [-1999, -501, -500, -499, 499, 500, 501, 1599, 1600, 1601, 1699, 1700, 1701, 1799, 1800, 1801, 1859, 1860,
+                              1861, 1899, 1900, 1901, 1919, 1920, 1921, 1940, 1941, 1942, 1960, 1961, 1962, 1985, 1986, 1987, 2004,
+                              2005, 2006, 2049, 2050, 2051, 2149, 2150, 2151, 2999],
+    ("Epoch.leap_seconds", "year"): [1971, 1972, 1973, 2016, 2017, 2018],
+    ("Epoch.easter", "year"): [1, 1582, 1583, 1584],
+    ("Epoch.is_leap", "year"): [-4, -1, 0, 1, 4, 100, 1500, 1580, 1582, 1584, 1600, 1700, 2000],
+    ("Epoch.is_julian", "year"): [1581, 1582, 1583],
+    ("Epoch.doy2date", "year"): [1581, 1582, 1583, 1600, 1700],
+    ("Epoch.moslem2gregorian", "year"): [1, 2, 990, 991],
+    ("Epoch.gregorian2moslem", "year"): [1582, 1583],
+    ("Epoch.jewish_pesach", "year"): [1, 1582, 1583],
+    ("Coordinates.kepler_equation", "eccentricity"): [0.0, 0.95],
+    ("Coordinates.kepler_equation", "mean_anomaly"): [0.0, 180.0, 360.0, -180.0],
+}
+EDGES_BY_NAME = {
+    "month": [1, 12], "year": [-999, 0, 1582, 1583, 2999], "i_sat": [0, 3], "n_dec": [0],
+    "e": [0.0], "eccentricity": [0.0], "mean_anomaly": [0.0, 180.0], "longitude": [0.0, 180.0, -180.0], "latitude": [0.0],
+    "declination": [0.0], "right_ascension": [0.0], "hour_angle": [180.0], "azimuth": [180.0], "deg": [0.0, 360.0, -360.0],
+    "rads": [0.0], "degrees": [0], "minutes": [0], "seconds": [0.0], "doy": [1, 365], "delta_t": [0.0],
+}
+
+
+def edges_for(qn, pname):
+    if (qn, pname) in EDGES:
+        return EDGES[(qn, pname)]
+    if (qn, pname) in OVR:
+        return []
+    return EDGES_BY_NAME.get(pname, [])
+
+
 ANGLE_NAMES = {"right_ascension", "declination", "longitude", "latitude", "obliquity", "hour_angle", "azimuth", "elevation",
                "geo_latitude", "alpha", "delta", "start_ra", "start_dec", "start_lon", "start_lat"}
 
 
 class Gen(object):
-    def __init__(self, seed):
+    def __init__(self, seed, force=None):
         self.rng = random.Random(seed)
+        self.force = force or {}
 
     def angle(self, v):
         from pymeeus.Angle import Angle
@@ -145,7 +182,9 @@ class Gen(object):
         fname = qn.split(".")[-1]
         if pname == "target":
             return rng.choice(STR["target"].get(fname, ["new"]))
-        if (qn, pname) in OVR:
+        if pname in self.force:
+            v = self.force[pname]
+        elif (qn, pname) in OVR:
             v = OVR[(qn, pname)](rng)
             if "epoch" in pname:
                 return self.epoch(v)
